@@ -18,7 +18,14 @@ impl Read for BodyReader {
     fn read(&mut self, buf: &mut [u8]) -> io::Result<usize> {
         match self {
             BodyReader::Chunked(r) => r.read(buf),
-            BodyReader::Length(r) => r.read(buf),
+            BodyReader::Length(r) => {
+                let n = r.read(buf)?;
+                if n == 0 && !buf.is_empty() && r.limit() > 0 {
+                    // the connection was closed before Content-Length bytes arrived
+                    return Err(io::ErrorKind::UnexpectedEof.into());
+                }
+                Ok(n)
+            }
             BodyReader::Close(r) => r.read(buf),
         }
     }
@@ -29,7 +36,15 @@ impl BufRead for BodyReader {
     fn fill_buf(&mut self) -> io::Result<&[u8]> {
         match self {
             BodyReader::Chunked(r) => r.fill_buf(),
-            BodyReader::Length(r) => r.fill_buf(),
+            BodyReader::Length(r) => {
+                let limit = r.limit();
+                let buf = r.fill_buf()?;
+                if buf.is_empty() && limit > 0 {
+                    // the connection was closed before Content-Length bytes arrived
+                    return Err(io::ErrorKind::UnexpectedEof.into());
+                }
+                Ok(buf)
+            }
             BodyReader::Close(r) => r.fill_buf(),
         }
     }
